@@ -5,6 +5,7 @@ CONSTANTS
   PatSet <- Pats_thorough
   NormKinds <- NormKinds_all
   MaxHist = 3
+  MaxQHist = 2
 CHECK_DEADLOCK FALSE
 INVARIANT TypeOK
 INVARIANT C15_NonzeroGetLength
